@@ -110,9 +110,63 @@ func mentions(sc *Scenario) []bool {
 	return m
 }
 
+// keepFirst drops every task with an index >= n from the construction history (the task specs stay;
+// unmentioned ones are reset at the end of Shrink).
+func keepFirst(sc *Scenario, n int) *Scenario {
+	c := cloneScenario(sc)
+	filter := func(calls []Call) []Call {
+		var out []Call
+		for _, call := range calls {
+			taskOp := call.Op == "add" || call.Op == "dep" || call.Op == "retries" || call.Op == "lookup" || call.Op == "addnofn"
+			if taskOp && call.T >= n {
+				continue
+			}
+			if call.Op == "dep" {
+				var ds []int
+				for _, d := range call.Deps {
+					if d < n {
+						ds = append(ds, d)
+					}
+				}
+				if len(ds) == 0 {
+					continue
+				}
+				call.Deps = ds
+			}
+			out = append(out, call)
+		}
+		return out
+	}
+	c.Build = filter(c.Build)
+	for _, ph := range c.ExtraPhases() {
+		ph.Build = filter(ph.Build)
+	}
+	return c
+}
+
+// mentioned counts the tasks the construction history still names.
+func mentioned(sc *Scenario) int {
+	n := 0
+	for _, m := range mentions(sc) {
+		if m {
+			n++
+		}
+	}
+	return n
+}
+
 // candidates yields simpler variants of sc, most drastic first.
 func candidates(sc *Scenario) []*Scenario {
 	var out []*Scenario
+	if k := mentioned(sc); k > 200 {
+		// hundreds of tasks: one candidate per task would take minutes to build; cut by halves first
+		for _, n := range []int{k / 2, k * 3 / 4, k * 7 / 8, k - 8, k - 1} {
+			if n >= 1 && n < k {
+				out = append(out, keepFirst(sc, n))
+			}
+		}
+		return out
+	}
 	add := func(f func(c *Scenario) bool) {
 		c := cloneScenario(sc)
 		if f(c) {
@@ -176,6 +230,7 @@ func candidates(sc *Scenario) []*Scenario {
 	add(func(c *Scenario) bool { ok := c.LogErr; c.LogErr = false; return ok })
 	add(func(c *Scenario) bool { ok := c.LogDiscard; c.LogDiscard = false; return ok })
 	add(func(c *Scenario) bool { ok := c.Writer.Locker != ""; c.Writer.Locker = ""; return ok })
+	add(func(c *Scenario) bool { ok := c.Writer.ErrOnly != 0; c.Writer.ErrOnly = 0; return ok })
 	add(func(c *Scenario) bool { ok := c.OuterBuf; c.OuterBuf = false; return ok })
 	add(func(c *Scenario) bool { ok := c.IDScheme != 0; c.IDScheme = 0; return ok })
 	add(func(c *Scenario) bool { ok := c.UseTaskMap; c.UseTaskMap = false; return ok })
